@@ -310,7 +310,7 @@ def e2e_root_kinds(run, binary, tmp, tier, fake, first_idx):
     n = 10 if tier == 'quick' else 120
     T = 1_700_000_000_000_000_000
     for i in range(n):
-        filters = rng.choice([['-.*\\.bak', '-private'], ['-keep.*'], ['+.*\\.txt'], ['-(.*/)?id_key']])
+        filters = rng.choice([['-.*\\.bak', '-private'], ['-keep.*'], ['+.*\\.txt'], ['-(.*/)?id_key'], ['-(.*/)?\\.DS_Store', '-(.*/)?Thumbs\\.db', '-(.*/)?desktop\\.ini']])
         pyf = [(f[0], f[1:]) for f in filters]
         place = ['LL', 'LL', 'RL', 'LR', 'RR'][i % 5]
         d = os.path.join(tmp, 'r%d' % (first_idx + i))
@@ -319,7 +319,9 @@ def e2e_root_kinds(run, binary, tmp, tier, fake, first_idx):
         skind = ['file', 'link', 'dir'][i % 3]
         folder = {'': {'k': 'dir'}, 'keep.bak': {'k': 'file', 'data': b'bak', 'mtime_ns': T}, 'a.txt': {'k': 'file', 'data': b'a', 'mtime_ns': T},
                   'private': {'k': 'dir'}, 'private/id_key': {'k': 'file', 'data': b'key', 'mtime_ns': T}, 'plain': {'k': 'file', 'data': b'p', 'mtime_ns': T},
-                  'sub': {'k': 'dir'}, 'sub/keep.bak': {'k': 'file', 'data': b'bak2', 'mtime_ns': T}, 'sub/id_key': {'k': 'file', 'data': b'k2', 'mtime_ns': T}}
+                  'sub': {'k': 'dir'}, 'sub/keep.bak': {'k': 'file', 'data': b'bak2', 'mtime_ns': T}, 'sub/id_key': {'k': 'file', 'data': b'k2', 'mtime_ns': T},
+                  'album': {'k': 'dir'}, 'album/.DS_Store': {'k': 'file', 'data': b'ds', 'mtime_ns': T}, 'album/Thumbs.db': {'k': 'file', 'data': b'th', 'mtime_ns': T},
+                  'album/desktop.ini': {'k': 'file', 'data': b'ini', 'mtime_ns': T}}
         if skind == 'dir':
             e2e.build_tree(sroot, {'': {'k': 'dir'}, 'new.txt': {'k': 'file', 'data': b'n', 'mtime_ns': T}})
             e2e.build_tree(droot, folder)
